@@ -159,6 +159,18 @@ CHECKS = {
             "lexical path cleaning; no symlinked detours; absolute import paths are not generated",
             "runtime monitoring: reference-model oracle over CLI diagnostics, parse-once event headers and the executed program's output",
             "cli", "4/C28"),
+    "C18": ("exploration",
+            "programs declaring up to 30 generated types (C17's universe at depth <= 2, plus aliases, re-written structural types and structurally identical twin "
+            "declarations) print, for every type, primitive and variant type, what core.meta reports (size/align/stride, kind, int width+sign, array len, sub types, "
+            "member names/types/offsets, variants, discriminants, tag offsets) at run time and from a comptime block; in the same program they print what address "
+            "arithmetic on real places measures (wrapper-struct offsets, [2]T element distance, field offsets, .len, sign of all-ones, tag byte located by storing "
+            "every variant into zeroed memory), the equality class of every type value against the whole table (run time, comptime, literal `A == B`), and the type "
+            "carried by an `any` made from a value (assignment, any parameter, ...any, cast expression, after widening). Reflected = measured = declared; equal iff same type.",
+            "same-type rule (aliases and re-written structural types are equal, every struct/enum/distinct declaration and variant is its own type, isize != i64) and "
+            "'wrapper-field distance = size the code uses' are assumptions listed in the evidence; the C17 layout rules are only a third opinion; global "
+            "`X :: comptime { core.meta... }` is rejected by capy, so comptime reflection runs in a comptime block inside main",
+            "runtime monitoring: reflection stream vs address-arithmetic measurements vs declaration on the executed program, pairwise type-value equality masks, any-type masks",
+            "cli", "4/C18"),
     "C19": ("exploration",
             "random and fixed-core signatures (0-8 parameters, scalars and flat structs up to 64 bytes covering INTEGER/SSE/MEMORY classes, register "
             "exhaustion, sret) are exercised in both directions (capy calls extern C; C calls a capy function pointer) against C code compiled by the host "
